@@ -19,7 +19,7 @@ RULE = ('Hypothesis: framing rtu / ascii / binary; garbage = 1..4 pieces out of 
         'distinct by SHA-1.')
 ASSUMPTIONS = ['RTU: valid frames arrive whole within a read (k frames per read), as frames separated by silent intervals do; on the delimited framings (ascii, binary) the valid traffic is also delivered in arbitrary pieces',
                'an asyncio/Twisted stream handler that closes the connection on a framing error is allowed to (C12); such cases are counted as excluded',
-               'binary frames are chosen free of delimiter bytes (recorded finding KF-BINARY-FRAMER-DELIMITER-BYTES)']
+               'binary frames are chosen free of the delimiter bytes that fall under the recorded finding KF-BINARY-FRAMER-DELIMITER-BYTES (0x7D anywhere, 0x7B in the data); every third valid binary frame carries a harmless 0x7B in its CRC']
 BUDGET = {'quick': 2500, 'thorough': 8000}
 FRAMINGS = ['rtu', 'ascii', 'binary']
 WINDOW = {'rtu': 512, 'ascii': 1026, 'binary': 1036}
@@ -97,16 +97,38 @@ def strategy(tier):
     return _case()
 
 
+_VF = {}
+
+
 def valid_frames(framing, n):
+    if (framing, n) not in _VF:
+        _VF[(framing, n)] = _valid_frames(framing, n)
+    return list(_VF[(framing, n)])
+
+
+def _valid_frames(framing, n):
     out = []
     v = 0
+    special = []
+    if framing == 'binary':
+        # valid frames with a start-delimiter byte 0x7B in the CRC position (harmless on receive, see refframe.binary_fragile):
+        # every third valid frame is one of them
+        for a in range(1, 0x10000):
+            pdu = specpdu.encode('req:6', {'address': 2, 'value': a})
+            fr = refframe.build(framing, UID, pdu)
+            if 0x7B in fr[-3:-1] and not refframe.binary_fragile(fr):
+                special.append((fr, pdu))
+                if len(special) * 3 >= n + 3:
+                    break
     while len(out) < n:
+        if special and len(out) % 3 == 1:
+            out.append(special.pop(0))
+            continue
         v += 1
         pdu = specpdu.encode('req:6', {'address': 2, 'value': v})
         fr = refframe.build(framing, UID, pdu)
-        if framing == 'binary' and any(b in (0x7B, 0x7D) for b in fr[1:-1]):
+        if framing == 'binary' and refframe.binary_fragile(fr):
             continue
-        rsp = refframe.build(framing, UID, pdu)     # the echo response is the same frame
         out.append((fr, pdu))
     return out
 
